@@ -715,3 +715,39 @@ func sameVal(a, b ssa.Value) bool {
 	}
 	return resolveVal(a) == resolveVal(b)
 }
+
+// retVals returns the values a Return actually returns, seeing through the
+// "defer-spilled" form (results stored into result cells, rundefers, reload):
+// for a result that is a load of a local cell, the last store to that cell in
+// the same block before the return is used. Results whose store is not in the
+// same block are returned as is.
+func retVals(ret *ssa.Return) []ssa.Value {
+	out := make([]ssa.Value, len(ret.Results))
+	b := ret.Block()
+	for i, rv := range ret.Results {
+		out[i] = rv
+		u, ok := rv.(*ssa.UnOp)
+		if !ok || u.Op != token.MUL {
+			continue
+		}
+		cell, ok := u.X.(*ssa.Alloc)
+		if !ok {
+			continue
+		}
+		for _, in := range b.Instrs {
+			if in == ssa.Instruction(u) {
+				break
+			}
+			if st, ok := in.(*ssa.Store); ok && st.Addr == ssa.Value(cell) {
+				out[i] = st.Val
+			}
+		}
+	}
+	return out
+}
+
+// isRecoverBlockReturn: the synthetic return of a function's recover block.
+func isRecoverReturn(ret *ssa.Return) bool {
+	f := ret.Parent()
+	return f.Recover != nil && ret.Block() == f.Recover
+}
